@@ -261,30 +261,50 @@ func (o *optimizer) etaReduction() {
 	// a declared function (builtins and conversions are not values, variables may
 	// be reassigned), or a method value on a single-assignment iterator variable
 	// generated by the rewriter (a method value evaluates its receiver early).
-	var stableCallee func(ctx astmatcher.Ctx, fun ast.Expr) bool
-	stableCallee = func(ctx astmatcher.Ctx, fun ast.Expr) bool {
+	var stableCallee func(ctx astmatcher.Ctx, fun ast.Expr, instantiated bool) bool
+	stableCallee = func(ctx astmatcher.Ctx, fun ast.Expr, instantiated bool) bool {
+		// a generic function is a value only when explicitly instantiated,
+		// id(x) with inferred type arguments can't be reduced to id
+		declared := func(obj types.Object) (sig *types.Signature, ok bool) {
+			fn, ok := obj.(*types.Func)
+			if !ok {
+				return nil, false
+			}
+			sig = fn.Type().(*types.Signature)
+			return sig, instantiated || sig.TypeParams().Len() == 0
+		}
 		switch f := fun.(type) {
 		case *ast.ParenExpr:
-			return stableCallee(ctx, f.X)
+			return stableCallee(ctx, f.X, instantiated)
 		case *ast.IndexExpr: // instantiation
-			return stableCallee(ctx, f.X)
+			return stableCallee(ctx, f.X, true)
 		case *ast.IndexListExpr:
-			return stableCallee(ctx, f.X)
+			return stableCallee(ctx, f.X, true)
 		case *ast.Ident:
-			fn, ok := ctx.ObjectOf(f).(*types.Func)
-			return ok && fn.Type().(*types.Signature).Recv() == nil
+			sig, ok := declared(ctx.ObjectOf(f))
+			return ok && sig.Recv() == nil
 		case *ast.SelectorExpr:
-			fn, ok := ctx.ObjectOf(f.Sel).(*types.Func)
+			sig, ok := declared(ctx.ObjectOf(f.Sel))
 			if !ok {
 				return false
 			}
-			if fn.Type().(*types.Signature).Recv() == nil {
+			if sig.Recv() == nil {
 				return true // pkg.Func
 			}
 			recv, ok := f.X.(*ast.Ident)
 			return ok && strings.HasPrefix(recv.Name, cstIterVar)
 		}
 		return false
+	}
+	// func(xs ...T) R { return f(xs) } passes one slice where f(xs...) spreads it,
+	// only the latter is f
+	spreadKept := func(lit *ast.FuncLit, params []*ast.Field) bool {
+		variadic := false
+		if n := len(params); n > 0 {
+			_, variadic = params[n-1].Type.(*ast.Ellipsis)
+		}
+		call := lit.Body.List[0].(*ast.ReturnStmt).Results[0].(*ast.CallExpr)
+		return variadic == call.Ellipsis.IsValid()
 	}
 	// the closure and its replacement must have the same type, e.g.,
 	// func(x int) any { return f(x) } with f func(int) int can't be reduced
@@ -299,7 +319,8 @@ func (o *optimizer) etaReduction() {
 			params := ctx.Binds["params"].(*ast.FieldList).List
 			args := ctx.Binds["args"].(ExprsNode)
 			fun := ctx.Binds["fun"].(ast.Expr)
-			if matched(ctx, params, args) && stableCallee(ctx, fun) && sameType(ctx, c.Node(), fun) {
+			if matched(ctx, params, args) && spreadKept(c.Node().(*ast.FuncLit), params) &&
+				stableCallee(ctx, fun, false) && sameType(ctx, c.Node(), fun) {
 				c.Replace(fun)
 			}
 		},
